@@ -1,6 +1,7 @@
 """Tie G (change-triggered escalation) for C02/C14: normalised-AST hashes of every function/method of the
 spox modules the two models cover. A changed, added or removed function is NOT a violation; it makes the
-quick tier run with the thorough generation counts for that run (more programs, same verdict rules), and
+quick tier generate 2.5x as many programs for that run (same verdict rules; the full thorough
+counts would blow the quick time budget on a loaded machine), and
 the list is written to the evidence.
 
 Baseline: harness/c02c14_source_baseline.json (the tree the checks were last validated on). Refresh it
